@@ -317,10 +317,10 @@ def _same_vars(a, b):
     if len(a) != len(b):
         return False
     for x, y in zip(a, b):
-        if set(x) != set(y):
+        if {k for k in x if not H.is_class_private(k)} != {k for k in y if not H.is_class_private(k)}:
             return False
         for k in x:
-            if k.endswith("__qa_nb_cache"):
+            if H.is_class_private(k):
                 continue
             if x[k] is not y[k] and x[k] != y[k]:
                 return False
